@@ -115,9 +115,15 @@ class VarMatcher(BaseMatcher):
 @dataclass(frozen=True, slots=True)
 class SequenceMatcher(BaseMatcher):
     matchers: tuple[BaseMatcher, ...]
-    tail_matcher: AnyMatcher | None = field(default=None, init=False)
+    # Set automatically from a trailing AnyMatcher. An init field, so that
+    # dataclasses.replace (used to add a capture name) preserves it
+    tail_matcher: AnyMatcher | None = field(default=None, kw_only=True)
 
     def __post_init__(self) -> None:
+        if self.tail_matcher is not None:
+            # Already normalized (re-created via dataclasses.replace)
+            return
+
         if len(self.matchers) == 0:
             raise RuntimeError(
                 "SequenceMatcher must have at least one matcher."
